@@ -311,7 +311,7 @@ def run_one(job):
         res["diff"] = "".join(list(difflib.unified_diff(orig.splitlines(True), newtext.splitlines(True), rel, rel, n=1))[:60])
         env = dict(os.environ, PYTHONPATH=str(rp / "src"))
         # the -x run stops at the two tools/ collection errors of the baseline, so run without -x but with a cap
-        p = subprocess.run([c for c in TEST_CMD if c != "-x"], cwd=rp, env=env, capture_output=True, text=True, timeout=900)
+        p = subprocess.run([c for c in TEST_CMD if c != "-x"], cwd=rp, env=env, capture_output=True, text=True, errors="replace", timeout=900)
         last = (p.stdout.strip().splitlines() or [""])[-1]
         res["tests"] = last[-120:]
         if "436 passed" not in last or "failed" in last:
@@ -321,7 +321,7 @@ def run_one(job):
         subprocess.run(["rsync", "-a", "--exclude", ".git", "--exclude", "replays", str(VERIF) + "/", str(vc) + "/"], check=True)
         env = dict(os.environ, VERIF_REPO=str(rp), VERIF_SEED=str(seed))
         env.pop("PYTHONPATH", None)
-        p = subprocess.run(["./check", pid, "--tier", "quick"], cwd=vc, env=env, capture_output=True, text=True, timeout=1800)
+        p = subprocess.run(["./check", pid, "--tier", "quick"], cwd=vc, env=env, capture_output=True, text=True, errors="replace", timeout=1800)
         out = p.stdout + p.stderr
         res["check_exit"] = p.returncode
         vl = [l for l in out.splitlines() if l.startswith("VIOLATION")]
